@@ -323,7 +323,7 @@ class PureEval:
                     return
                 g = node.generators[gi]
                 seq = list(self.ev(g.iter, e))
-                if len(seq) > 64:
+                if len(seq) > max(64, self.MAX_ITER):
                     raise FevalError("comprehension too long")
                 for x in seq:
                     e2 = dict(e)
@@ -372,7 +372,7 @@ class PureEval:
             return _BIN[type(node.op)](self.ev(node.left, env), self.ev(node.right, env))
         if isinstance(node, ast.IfExp):
             return self.ev(node.body, env) if self.ev(node.test, env) else self.ev(node.orelse, env)
-        if isinstance(node, ast.Call) and isinstance(node.func, ast.Attribute) and node.func.attr in ("items", "keys", "values", "get", "most_common", "count", "index"):
+        if isinstance(node, ast.Call) and isinstance(node.func, ast.Attribute) and node.func.attr in ("items", "keys", "values", "get", "most_common", "count", "index", "endswith", "startswith"):
             base = self.ev(node.func.value, env)
             if isinstance(base, (dict, tuple, list, str)) and hasattr(base, node.func.attr):
                 r = getattr(base, node.func.attr)(*[self.ev(a, env) for a in node.args])
